@@ -38,7 +38,8 @@ REQUIRED_PROBES = ["open_refused_by_os", "refused_missing_binding", "refused_oth
 REPO = "/repo"
 STRINGS = ["/dev/sg0", "/dev/sg1", "/dev/", "/dev", "/devx", "/dev/nonexistent", "dev/sg0", " /dev/sg0",
            "iscsi://10.0.0.1:3260/iqn.2026-10.verif:tgt0/0", "iscsi://10.0.0.1:3260/iqn.2026-10.verif:tgt0/1", "iscsi://", "iscsi:/x", "ISCSI://10.0.0.1/iqn/0",
-           "", "file.img", "http://example/", "/tmp/x"]
+           "", "file.img", "http://example/", "/tmp/x",
+           "/dev/disk/by-label/data%20disk", "iscsi://user%password@10.0.0.1/iqn.2026-10.verif:tgt0/0", "100%", "%s", "/dev/%(x)s"]
 ISCSI_OK = {"iscsi://10.0.0.1:3260/iqn.2026-10.verif:tgt0/0": ("10.0.0.1:3260", "iqn.2026-10.verif:tgt0", 0),
             "iscsi://10.0.0.1:3260/iqn.2026-10.verif:tgt0/1": ("10.0.0.1:3260", "iqn.2026-10.verif:tgt0", 1)}
 SG_OK = {"/dev/sg0", "/dev/sg1"}
@@ -280,6 +281,20 @@ def execute(prog):
                     else:
                         WORLD.probe("accepted_iscsi")
                     ini = ctxs[0].get("initiator") if ctxs else None
+                    if op.get("initiator") == "" and via == "init_device":
+                        # an explicitly empty name must mean the same through init_device as through the constructor
+                        from pyscsi.pyiscsi.iscsi_device import ISCSIDevice as _I
+                        n0 = len(WORLD.iscsi_contexts)
+                        k9, v9 = "ok", None
+                        try:
+                            _I(s, "")
+                        except BaseException as e9:  # noqa
+                            k9 = "exc"
+                        ref = WORLD.iscsi_contexts[n0].initiator_name if len(WORLD.iscsi_contexts) > n0 else None
+                        if k9 == "ok" and ref != ini:
+                            viol("C19.initiator", w, "explicit-empty", "init_device(.., initiator_name='') opens like ISCSIDevice(.., '') (initiator %r)" % ref, repr(ini))
+                        else:
+                            WORLD.probe("empty_initiator_consistent")
                     if "initiator" in op and op["initiator"]:
                         if ini != op["initiator"]:
                             viol("C19.initiator", w, "explicit", "initiator name %r" % op["initiator"], repr(ini))
